@@ -48,7 +48,7 @@ class _SingleEvent:
         self.multievent.set_(self)
 
     def is_set(self):
-        return self in self.multievent.events
+        return self not in self.multievent.events
 
 
 class MultiEvent(threading.Event):
